@@ -349,6 +349,58 @@ func (g *G) Value(t reflect.Type, depth int, conditional bool) reflect.Value {
 	return reflect.Zero(t)
 }
 
+// Alias rewrites v in place so that sub-objects are shared: in every slice of pointers/interfaces with two or
+// more elements element 1 becomes element 0, and in every struct a later field of the same pointer/interface
+// type as an earlier non-nil one is pointed at the same object. Returns how many references were redirected.
+func Alias(v reflect.Value, depth int) int {
+	if !v.IsValid() || depth > 6 {
+		return 0
+	}
+	n := 0
+	switch v.Kind() {
+	case reflect.Interface, reflect.Ptr:
+		if v.IsNil() {
+			return 0
+		}
+		return Alias(v.Elem(), depth+1)
+	case reflect.Slice:
+		if v.Type() == tBytes {
+			return 0
+		}
+		ek := v.Type().Elem().Kind()
+		if v.Len() >= 2 && (ek == reflect.Ptr || ek == reflect.Interface) && v.Index(0).Type() == v.Index(1).Type() {
+			if ek == reflect.Ptr && v.Index(0).Type() != tInt128 && v.Index(0).Type() != tInt256 || ek == reflect.Interface {
+				v.Index(1).Set(v.Index(0))
+				n++
+			}
+		}
+		for i := 0; i < v.Len(); i++ {
+			if i == 1 && n > 0 {
+				continue
+			}
+			n += Alias(v.Index(i), depth+1)
+		}
+	case reflect.Struct:
+		first := map[reflect.Type]reflect.Value{}
+		for i := 0; i < v.NumField(); i++ {
+			f := v.Field(i)
+			if v.Type().Field(i).PkgPath != "" {
+				continue
+			}
+			if (f.Kind() == reflect.Ptr || f.Kind() == reflect.Interface) && !f.IsNil() && f.Type() != tInt128 && f.Type() != tInt256 {
+				if prev, ok := first[f.Type()]; ok && f.CanSet() && v.Type().Field(i).Tag.Get("tl") == "" {
+					f.Set(prev)
+					n++
+					continue
+				}
+				first[f.Type()] = f
+			}
+			n += Alias(f, depth+1)
+		}
+	}
+	return n
+}
+
 // Equal compares two values modulo representation: nil ≡ empty slice, big integers by value,
 // doubles by bit pattern. It returns "" or a path to the first difference.
 func Equal(a, b reflect.Value, path string) string {
